@@ -490,15 +490,14 @@ pub fn fp_program(p: &Program) -> String {
 }
 
 /// Parse a text: `Ok(fingerprint)` when the parser reports no error, else `Err(first error)`.
-pub fn parse_fp(src: &str) -> Result<String, (String, String)> {
+pub fn parse_fp(src: &str) -> Result<String, String> {
     let (prog, errs) = parser::parse_program(src, std::path::PathBuf::new());
     if let Some(e) = errs.first() {
         let toks = parser::tokenize(src);
         let at = toks.get(e.token_index).map(|t| t.start).unwrap_or(src.len());
         let line = src[..at.min(src.len())].matches('\n').count() + 1;
         let line_text: String = src.lines().nth(line - 1).unwrap_or("").chars().take(80).collect();
-        let full_line = src.lines().nth(line - 1).unwrap_or("").to_string();
-        return Err((format!("{} parser error(s); first: {} at byte {at} (line {line}: {line_text:?})", errs.len(), e), full_line));
+        return Err(format!("{} parser error(s); first: {} at byte {at} (line {line}: {line_text:?})", errs.len(), e));
     }
     Ok(fp_program(&prog))
 }
@@ -547,10 +546,6 @@ pub struct Features {
     pub typed_param: bool,
     /// a parameter with a default value
     pub param_default: bool,
-    /// a `let` with a type annotation
-    pub typed_let: bool,
-    /// a function declaration / lambda with a `->` return type
-    pub return_type: bool,
     /// comment tokens: (kind is block?, attached to which non-trivia token kind, leading?)
     pub comment_sites: Vec<CommentSite>,
     pub n_comments: usize,
@@ -584,9 +579,6 @@ pub struct Features {
 pub struct CommentSite {
     /// token index of the comment (source order)
     pub token: usize,
-    /// comment text, trailing whitespace trimmed
-    pub text: String,
-    pub block: bool,
     /// kind of the non-trivia token the comment is attached to
     pub owner: TokenKind,
     /// its token index
@@ -595,12 +587,6 @@ pub struct CommentSite {
     pub leading: bool,
     /// syntax kind of the innermost CST node that holds the owner token
     pub parent: Option<SyntaxKind>,
-    /// comment sits before the first non-trivia token of the file
-    pub file_header: bool,
-    /// another comment follows in the same trivia run
-    pub followed_by_comment: bool,
-    /// a line break lies between the owner token and the comment (trailing) / the comment and the owner (leading)
-    pub own_line: bool,
 }
 
 impl Features {
@@ -672,11 +658,6 @@ fn walk(arena: &GreenNodeArena, id: GreenNodeId, parent: Option<SyntaxKind>, f: 
                         }
                     }
                 }
-                SyntaxKind::LetDecl => {
-                    if children.iter().any(|c| arena.kind(*c) == Some(SyntaxKind::TypeAnnotation)) {
-                        f.typed_let = true;
-                    }
-                }
                 _ => {}
             }
             if *kind == SyntaxKind::LambdaExpr {
@@ -690,15 +671,6 @@ fn walk(arena: &GreenNodeArena, id: GreenNodeId, parent: Option<SyntaxKind>, f: 
                 let bars: Vec<usize> = children.iter().enumerate().filter(|(_, c)| matches!(arena.get(**c), GreenNode::Token { token_index, .. } if tokens.get(*token_index).map(|t| t.kind) == Some(TokenKind::LambdaArgBeginEnd))).map(|(i, _)| i).collect();
                 if bars.len() >= 2 && bars[1] == bars[0] + 1 {
                     f.empty_lambda = true;
-                }
-            }
-            if matches!(kind, SyntaxKind::FunctionDecl | SyntaxKind::LambdaExpr) {
-                for c in children {
-                    if let GreenNode::Token { token_index, .. } = arena.get(*c) {
-                        if tokens.get(*token_index).map(|t| t.kind) == Some(TokenKind::Arrow) {
-                            f.return_type = true;
-                        }
-                    }
                 }
             }
             for c in children {
@@ -799,31 +771,19 @@ pub fn features(src: &str) -> Option<Features> {
     let mut tok_parent: Vec<Option<SyntaxKind>> = vec![None; tokens2.len()];
     walk(&arena, root, None, &mut f, &mut tok_parent, &tokens2, 0);
     // comment sites
-    let first_nt = pre.token_indices.first().copied().unwrap_or(usize::MAX);
-    let mut site = |list: &Vec<usize>, owner_pre_idx: usize, leading: bool, f: &mut Features| {
+    let site = |list: &Vec<usize>, owner_pre_idx: usize, leading: bool, f: &mut Features| {
         let Some(&owner_tok) = pre.token_indices.get(owner_pre_idx) else { return };
-        for (pos, &ti) in list.iter().enumerate() {
+        for &ti in list.iter() {
             let t = &tokens2[ti];
             if !matches!(t.kind, TokenKind::SingleLineComment | TokenKind::MultiLineComment) {
                 continue;
             }
-            let followed = list[pos + 1..].iter().any(|&j| matches!(tokens2[j].kind, TokenKind::SingleLineComment | TokenKind::MultiLineComment));
-            let own_line = if leading {
-                list[pos + 1..].iter().any(|&j| tokens2[j].kind == TokenKind::LineBreak)
-            } else {
-                list[..pos].iter().any(|&j| tokens2[j].kind == TokenKind::LineBreak)
-            };
             f.comment_sites.push(CommentSite {
                 token: ti,
-                text: t.text(src).trim_end().to_string(),
-                block: t.kind == TokenKind::MultiLineComment,
                 owner: tokens2[owner_tok].kind,
                 owner_token: owner_tok,
                 leading,
                 parent: tok_parent[owner_tok],
-                file_header: ti < first_nt,
-                followed_by_comment: followed,
-                own_line,
             });
         }
     };
